@@ -32,6 +32,12 @@ func VerifH13a() {
 		bodies[i] = nondetBytes(vChoose(N + 1))
 		input = append(input, vMsgBytes(types[i], bodies[i])...)
 	}
+	// the client always finishes with CopyDone, so a Read is due whatever
+	// precedes it (e.g. nothing but Flush/Sync messages)
+	types = append(types, 'c')
+	bodies = append(bodies, nil)
+	input = append(input, vMsgBytes('c', nil)...)
+	K++
 	w := vNewWorld(input, 64)
 	cr := NewCopyReader(w.rd, w.wr, vTextColumns(1))
 	idx := 0
